@@ -85,25 +85,21 @@ DROPPED = {
 
 
 def main():
+    sys.path.insert(0, os.path.dirname(os.path.abspath(__file__)))
+    from r4_seeded import load_confirm
     conf = {}
-    for fn in sorted(os.listdir("/tmp/confirm")) if os.path.isdir("/tmp/confirm") else []:
-        if fn.endswith(".txt") and fn.startswith("r2-"):
-            t = open(os.path.join("/tmp/confirm", fn)).read().strip()
-            m = re.match(r"name=(\S+) head=(\S+) suite=\[(.*?)\] demo_mutant_exit=(\d+) demo_base_exit=(\d+)", t)
-            if m:
-                sm = re.search(r"stable_pass=(\d+) passed_now=(\d+) failed_now=(\d+) missing_from_pass=(\d+)", m.group(3))
-                conf[m.group(1)] = {"head": m.group(2), "suite": {k: int(v) for k, v in zip(("stable_pass", "passed", "failed_env", "missing_from_pass"), sm.groups())} if sm else m.group(3),
-                                    "missing": re.findall(r"MISSING (\S+)", m.group(3)),
-                                    "demo_exit_with_change": int(m.group(4)), "demo_exit_without_change": int(m.group(5))}
-            else:
-                conf[fn[:-4]] = {"raw": t}
+    for name, c in load_confirm().items():
+        if not name.startswith("r2-") or "demo_with" not in c:
+            continue
+        suite = c.get("suite") or (c.get("suite_combined") or {}).get("suite")
+        conf[name] = {"head": c.get("head"), "suite": suite, "missing": [], "demo_exit_with_change": c["demo_with"],
+                      "demo_exit_without_change": c["demo_without"], "suite_combined_with": (c.get("suite_combined") or {}).get("applied_together")}
     rows = []
     for (agent, n), (prop, needs, caught, first, added) in sorted(R2.items()):
         name = "r2-%s-p%d" % (agent, n)
         c = conf.get(name)
         ok = bool(c) and c.get("demo_exit_with_change") == 1 and c.get("demo_exit_without_change") == 0 and \
-            isinstance(c.get("suite"), dict) and (c["suite"]["missing_from_pass"] == 0 or
-                                                  all("benchmark" in x or "linear_scaling" in x for x in c.get("missing", [])))
+            isinstance(c.get("suite"), dict) and c["suite"]["missing_from_pass"] == 0
         status = "confirmed" if ok else ("pending" if not c else "NOT confirmed: %s" % json.dumps(c)[:200])
         rows.append((agent, n, prop, needs, caught, first, added, status))
         if not ok or "--write" not in sys.argv:
@@ -111,16 +107,17 @@ def main():
         d = "/verif/seeded/R2-%s-p%d" % (agent, n)
         os.makedirs(d, exist_ok=True)
         pn = "" if n == 1 else str(n)
-        shutil.copy("/tmp/deliver/%s/patch%s.diff" % (agent, pn), d + "/patch.diff")
-        shutil.copy("/tmp/deliver/%s/demo%s.sh" % (agent, pn), d + "/demo.sh")
-        shutil.copy("/tmp/deliver/%s/README.md" % agent, d + "/AGENT_README.md")
+        shutil.copy("/verif/seeded/r2-deliverables/%s/patch%s.diff" % (agent, pn), d + "/patch.diff")
+        shutil.copy("/verif/seeded/r2-deliverables/%s/demo%s.sh" % (agent, pn), d + "/demo.sh")
+        shutil.copy("/verif/seeded/r2-deliverables/%s/README.md" % agent, d + "/AGENT_README.md")
         meta = {"name": "R2-%s-p%d" % (agent, n), "breaks_property": prop,
                 "written_by": "independent sub-agent given only the property text (PROPERTY.md) and a scratch worktree of /repo; nothing from /verif",
                 "needs_to_manifest": needs, "detected_by": "./check %s quick (GAISIM_GITAI=<binary built from /repo HEAD + patch.diff with --cfg git_ai_verif>): %s" % (caught.split(" ")[0], caught),
                 "caught_as_first_built": first, "added_to_catch_it": added,
                 "confirmed_by_me": {"applies_to": c["head"], "demo_exit_with_change": c["demo_exit_with_change"],
                                     "demo_exit_without_change": c["demo_exit_without_change"], "pinned_suite_with_change": c["suite"],
-                                    "suite_missing_tests": c.get("missing", [])},
+                                    "suite_missing_tests": c.get("missing", []),
+                                    "suite_run_with_these_changes_applied_together": c.get("suite_combined_with")},
                 "what_i_ran": "/tmp/confirm.sh in a scratch worktree (removed afterwards): git apply on /repo HEAD; the pinned nextest suite on the patched tree compared with BASELINE.json (the 802 *_in_worktree failures are the environment's, identical on the unchanged tree); demo.sh with the patched and the unpatched binary; the quick check against a guard-on build of the patched tree"}
         with open(d + "/meta.json", "w") as f:
             json.dump(meta, f, indent=1)
